@@ -63,20 +63,23 @@ def gen_subtask_script(rng, mode, maxcalls, maxbody, stats=None):
     specs = [gen_callspec(rng) for _ in range(ncalls)]
     body, created = [], []
     n = rng.randint(1, maxbody)
+    wprob = 0.08 if mode == "export" else 0.20
     for _ in range(n):
         r = rng.random()
         if (r < 0.3 and len(created) < ncalls) or not created:
             k = len(created) if rng.random() < 0.9 else rng.randrange(ncalls)
             if k not in created: created.append(k)
             body.append(f"c{k}")
+            if rng.random() < 0.75:          # usually poll it at once so that the call is made
+                body.append(f"p{k}" if rng.random() < 0.7 else f"a{k}")
         else:
             k = rng.choice(created) if rng.random() < 0.93 else rng.randrange(ncalls)
             r2 = rng.random()
-            if r2 < 0.40: body.append(f"p{k}")
+            if r2 < 0.38: body.append(f"p{k}")
             elif r2 < 0.58: body.append(f"a{k}")
             elif r2 < 0.72: body.append(f"d{k}")
-            elif r2 < 0.92: body.append("w")
-            else: body.append("y")
+            elif r2 < 0.72 + wprob: body.append("w")
+            else: body.append("y" if rng.random() < 0.5 else f"p{k}")
     host = []
     m = rng.randint(0, 2 * maxbody)
     for _ in range(m):
